@@ -10,11 +10,24 @@ reference resolver (``Model``) implements the statement; the sub-checks build
 the forest in a FakedWBEMConnection through CreateClass / MOF compilation /
 ModifyClass and compare what the class and instance queries return.
 
+Qualifier values may state flavors of their own (CIMQualifier(...,
+tosubclass=, overridable=) / MOF ``Q("x") : Restricted DisableOverride``),
+more or less restrictive than the declaration.  The model keeps the effective
+flavors per *value* (stated, else the declaration's) and lets them decide
+propagation and the DisableOverride check further down; the stated flavors
+must come back on the declaring class; a forest compiled from MOF is also
+created through CreateClass and the two resolved forests must be equal
+(``cmp_with_createclass``).
+
 Recipe forms
   qdecl:  {'name', 'type', 'is_array', 'tosub': True|False|None,
            'ovr': True|False|None, 'scopes': 'any' | [scope names],
            'partial': bool}       (partial: scopes dict holds only true items)
   qual:   (name, type, value)     value: str|int|bool|None|list
+          (name, type, value, tosub, ovr)   a value that states flavors of
+           its own: tosub / ovr True|False|None as for CIMQualifier(...,
+           tosubclass=, overridable=) and the MOF form 'Q("x") : Restricted
+           DisableOverride'; the short form states none
   class:  {'name', 'super': spelled name|None, 'assoc': bool,
            'quals': [qual], 'props': [prop], 'methods': [method]}
   prop:   {'name', 'type', 'is_array', 'refclass', 'value', 'quals'}
@@ -52,11 +65,19 @@ RULE = (
     "every class draws new and overriding (Override qualifier, optionally "
     "spelled in another case) properties, methods and parameters and "
     "class/element/parameter level qualifiers that repeat, change or omit "
-    "the inherited ones.  resolve: the forest is created in a drawn "
+    "the inherited ones; 3 of 10 qualifier values state flavors of their "
+    "own (tosubclass/overridable True/False/None on the CIMQualifier, a "
+    "flavor list in MOF), restrictive ones more often, independent of the "
+    "declaration (classes vflavor:*: what is stated against the "
+    "declaration, and whether a subclass element sits below such a value). "
+    " resolve: the forest is created in a drawn "
     "topological order (optionally with one premature CreateClass before "
     "the superclass exists) through CreateClass, or through one "
     "compile_mof_string() of hand-assembled MOF, and the full GetClass view "
-    "of every class is compared with a reference resolver.  flags: all 27 "
+    "of every class is compared with a reference resolver; a forest that "
+    "was compiled from MOF is created again through CreateClass and the "
+    "two resolved forests are compared (differential:forests-compared).  "
+    "flags: all 27 "
     "LocalOnly x IncludeQualifiers x IncludeClassOrigin combinations x 5 "
     "property lists for every class.  enum: EnumerateClassNames/"
     "EnumerateClasses for every class and None x DeepInheritance, "
@@ -66,14 +87,37 @@ RULE = (
     "views and enumerations compared after every step.  Requests use case "
     "variants of the names.  Non-trivial = forest of depth >= 2 that "
     "contains an override, or uses a Restricted or DisableOverride "
-    "qualifier, or whose names differ in case between declaration and use "
+    "qualifier, or a value stating a flavor other than the declaration's, "
+    "or whose names differ in case between declaration and use "
     "(delete: a subtree with more than one class was removed and other "
     "classes remained).  Distinct = distinct recipe / step list.")
 ASSUMPTIONS = [
-    "qualifier values do not carry flavors of their own (tosubclass/"
-    "overridable None on CIMQualifier): flavors come from the declaration; "
-    "a declaration flavor of None means the DSP0004 default (ToSubclass, "
-    "EnableOverride), as _init_qualifier documents",
+    "the flavors that apply to a qualifier value are the ones the value "
+    "states itself (CIMQualifier.tosubclass/overridable: 'If not None, "
+    "specifies whether the qualifier value propagates to subclasses / is "
+    "overridable in subclasses'; in MOF the flavor list after the value), "
+    "whether more or less restrictive than the declaration; a flavor the "
+    "value does not state comes from the declaration; a declaration flavor "
+    "of None means the DSP0004 default (ToSubclass, EnableOverride), as "
+    "_init_qualifier documents.  Only tosubclass and overridable are "
+    "generated (the flavors the statement quantifies over); Key, Override, "
+    "Association and the In added to new parameters never state flavors",
+    "a stated flavor is exposed unchanged on the class that declares the "
+    "value (GetClass exposes 'exactly the qualifiers'); flavors that were "
+    "not stated and the propagated flag of qualifier objects are not "
+    "compared with the model",
+    "not asserted (counted as unasserted:*): a subclass repeats an "
+    "inherited DisableOverride qualifier with the same value but with "
+    "other effective flavors (stated on the new value, or the "
+    "declaration's where the inherited value had stated its own) - "
+    "neither the documentation nor the statement say whether that is an "
+    "override, so the class may be accepted or rejected and the presence, "
+    "value and enforcement of that qualifier below it are not compared",
+    "differential MOF/CreateClass: a class recipe means the same whether "
+    "it is written as MOF text or as CIMClass object, so the full views "
+    "(CIMClass equality, all attributes incl. flavors and propagated) "
+    "must be equal; compared only when CreateClass accepts every class of "
+    "the forest that the MOF compiler accepted",
     "a redeclared property/method carries the Override qualifier naming the "
     "overridden element and keeps its type/array-ness/return type (the mock "
     "documents that it rejects anything else); overriding methods keep the "
@@ -90,8 +134,7 @@ ASSUMPTIONS = [
     "ModifyClass is only required to succeed on leaf classes without "
     "instances; otherwise a CIMError with unchanged state is required "
     "(documented by the mock's ModifyClass)",
-    "names are compared case-insensitively; qualifier flavors and the "
-    "propagated flag of qualifier objects are not compared",
+    "names are compared case-insensitively",
 ]
 
 NS = 'root/cimv2'
@@ -143,9 +186,20 @@ def b_value(type_, v):
     return v
 
 
+def qparts(q):
+    "-> (name, type, value, tosub, ovr) of a qual recipe of either form"
+    if len(q) == 3:
+        return q[0], q[1], q[2], None, None
+    name, type_, v, ts, ov = q
+    return name, type_, v, ts, ov
+
+
 def b_qual(q):
-    name, type_, v = q
-    return CIMQualifier(name, b_value(type_, v), type=type_)
+    name, type_, v, ts, ov = qparts(q)
+    if ts is None and ov is None:
+        return CIMQualifier(name, b_value(type_, v), type=type_)
+    return CIMQualifier(name, b_value(type_, v), type=type_, tosubclass=ts,
+                        overridable=ov)
 
 
 def b_qdecl(d):
@@ -206,13 +260,31 @@ def mof_lit(type_, v):
     return str(v)
 
 
+def mof_flavors(name, ts, ov):
+    "flavor list of a qualifier value ('' if it states none)"
+    fl = []
+    if ov is not None:
+        fl.append('EnableOverride' if ov else 'DisableOverride')
+    if ts is not None:
+        fl.append('ToSubclass' if ts else 'Restricted')
+    if not fl:
+        return ''
+    if len(name) % 3 == 0:
+        fl.reverse()            # the order of the flavors is free
+    if len(name) % 2 == 0:
+        fl = [f.lower() for f in fl]        # keywords are case insensitive
+    return ' : ' + ' '.join(fl)
+
+
 def mof_qual(q):
-    name, type_, v = q
+    name, type_, v, ts, ov = qparts(q)
+    fl = mof_flavors(name, ts, ov)
     if isinstance(v, list):
-        return '%s{%s}' % (name, ', '.join(mof_lit(type_, x) for x in v))
+        return '%s{%s}%s' % (name, ', '.join(mof_lit(type_, x) for x in v),
+                             fl)
     if type_ == 'boolean' and v is True and len(name) % 2:
-        return name      # the implied-true spelling
-    return '%s(%s)' % (name, mof_lit(type_, v))
+        return name + fl     # the implied-true spelling
+    return '%s(%s)%s' % (name, mof_lit(type_, v), fl)
 
 
 def mof_quals(qs):
@@ -280,10 +352,28 @@ class Model:
 
     # -- flavors
     def tosub(self, qname):
+        "ToSubclass per the declaration"
         return self.qd[lc(qname)]['tosub'] is not False
 
     def ovr(self, qname):
+        "EnableOverride per the declaration"
         return self.qd[lc(qname)]['ovr'] is not False
+
+    def own_qual(self, q):
+        """
+        Expected qualifier for a qual recipe.  'ts' / 'ov': the effective
+        flavors - the flavor the value states itself (CIMQualifier.tosubclass
+        / .overridable: "If not None, specifies whether the qualifier value
+        propagates to subclasses / is overridable in subclasses"), else the
+        one of the declaration (else the DSP0004 default); 'xts' / 'xov':
+        the flavors as the value states them.  Inherited copies keep all
+        four.
+        """
+        name, type_, v, ts, ov = qparts(q)
+        return dict(name=name, type=type_, value=v, src='own',
+                    ts=self.tosub(name) if ts is None else ts,
+                    ov=self.ovr(name) if ov is None else ov,
+                    xts=ts, xov=ov)
 
     # -- hierarchy
     def add(self, spec):
@@ -333,35 +423,63 @@ class Model:
         """
         own: list of qual recipes; inherited: dict of the overridden element
         (expected view).  Returns (quals, violations, unasserted).
+        A violation is (qualifier name, restated, explicit): explicit = the
+        DisableOverride flavor was stated by the inherited value itself.
+        The flavors that count are the effective ones of the inherited
+        *value* ('ts' / 'ov', see own_qual), not those of the declaration.
         Flags kept on expected qualifiers for the classification of
         failures: 'restated' (an ancestor repeated this DisableOverride
         qualifier with the same value), 'param_over' (inherited by a
-        parameter of an overriding method).
+        parameter of an overriding method), 'free' (see below).
         """
         out = {}
         viol = []
         loose = False
-        for name, type_, v in own:
-            out[lc(name)] = dict(name=name, type=type_, value=v, src='own')
+        for q in own:
+            name = q[0]
+            out[lc(name)] = self.own_qual(q)
             if lc(name) in ghost:
                 # the server still shows this Restricted qualifier on the
                 # overridden element, so for the server it is restated
                 out[lc(name)]['restated'] = True
         for lq, q in (inherited or {}).items():
-            if not self.tosub(lq):
+            if q.get('free'):
+                # the flavors of the inherited value are not determined
+                # (see below): neither is what follows from them
+                if lq in out:
+                    out[lq]['free'] = True
+                    loose = True
+                else:
+                    out[lq] = dict(q, src='inherited')
+                continue
+            if not q['ts']:
                 if lq in out:
                     out[lq]['restated'] = True
-                    if not self.ovr(lq):
+                    if not q['ov']:
                         loose = True  # Restricted + DisableOverride, restated
                 continue
             if lq in out:
-                if not self.ovr(lq):
+                if not q['ov']:
                     if out[lq]['value'] != q['value'] or \
                             out[lq]['type'] != q['type']:
-                        viol.append((q['name'], bool(q.get('restated'))))
-                    elif q.get('restated'):
-                        # restated again below a class that restated it
-                        self._restated_again = True
+                        viol.append((q['name'], bool(q.get('restated')),
+                                     q['xov'] is False))
+                    else:
+                        if q.get('restated'):
+                            # restated again below a class that restated it
+                            self._restated_again = True
+                        if (out[lq]['ts'], out[lq]['ov']) != (q['ts'],
+                                                              q['ov']):
+                            # A DisableOverride qualifier is repeated with
+                            # the same value but other effective flavors
+                            # (stated on the new value, or the declaration's
+                            # where the inherited value stated its own):
+                            # neither pywbem's documentation nor the
+                            # statement say whether that is an override, so
+                            # acceptance and the flavors that apply further
+                            # down are not asserted
+                            out[lq]['free'] = True
+                            loose = True
                     out[lq]['restated'] = True
             else:
                 out[lq] = dict(q, src='inherited')
@@ -374,11 +492,24 @@ class Model:
         keep = {}
         ghost = {}
         for lq, q in quals.items():
-            if self.tosub(lq):
+            if q['ts'] or q.get('free'):
                 keep[lq] = dict(q, src='inherited')
             else:
-                ghost[lq] = bool(q.get('restated'))
+                ghost[lq] = dict(restated=bool(q.get('restated')),
+                                 ov=q['ov'], xts=q['xts'])
         return keep, ghost
+
+    @staticmethod
+    def _xres(base):
+        """
+        names of the qualifiers of the overridden element `base` that stop
+        there because their value states Restricted itself
+        """
+        if not base:
+            return set()
+        return set(lq for lq, q in base['quals'].items()
+                   if not q.get('free') and not q['ts'] and
+                   q['xts'] is False)
 
     def resolve(self, spec, sup):
         """
@@ -408,12 +539,13 @@ class Model:
                 viol += [(kind, e['name'], x) for x in v]
                 loose = loose or lo
                 if base and any(lc(x[0]) in base['ghost'] and
-                                not self.ovr(x[0]) for x in e['quals']):
+                                not base['ghost'][lc(x[0])]['ov']
+                                for x in e['quals']):
                     ghost_conflict = True
                 el = dict(name=e['name'],
                           kind='override' if base else 'new',
                           origin=base['origin'] if base else spec['name'],
-                          quals=q, ghost={})
+                          quals=q, ghost={}, xres=self._xres(base))
                 if kind == 'props':
                     el.update(type=e['type'], is_array=e['is_array'],
                               refclass=e['refclass'], value=e['value'])
@@ -430,27 +562,27 @@ class Model:
                                   y) for y in v]
                         loose = loose or lo
                         if bp and any(lc(y[0]) in bp['ghost'] and
-                                      not self.ovr(y[0])
+                                      not bp['ghost'][lc(y[0])]['ov']
                                       for y in x['quals']):
                             ghost_conflict = True
                         el['params'][lc(x['name'])] = dict(
                             name=x['name'], type=x['type'],
                             is_array=x['is_array'],
                             refclass=x.get('refclass'), quals=pq,
-                            ghost={},
+                            ghost={}, xres=self._xres(bp),
                             over=bp is not None)
                 target[le] = el
             for le, base in inh.items():
                 if le in target:
                     continue
                 keep, ghost = self._inherit_quals(base['quals'])
-                el = dict(base, kind='inherited', quals=keep,
+                el = dict(base, kind='inherited', quals=keep, xres=set(),
                           ghost=dict(base['ghost'], **ghost))
                 if kind == 'methods':
                     el['params'] = {}
                     for lp, bp in base['params'].items():
                         pk, pg = self._inherit_quals(bp['quals'])
-                        el['params'][lp] = dict(bp, quals=pk,
+                        el['params'][lp] = dict(bp, quals=pk, xres=set(),
                                                 ghost=dict(bp['ghost'], **pg),
                                                 over=False)
                 target[le] = el
@@ -540,6 +672,23 @@ def _usable(qdecls, scope):
             if d['scopes'] == 'any' or scope in d['scopes']]
 
 
+def _g_qual(draw, d, v):
+    """
+    Qual recipe for declaration d with value v; 3 of 10 state flavors of
+    their own (each flavor: 5/10 the restrictive one, 2/10 the permissive
+    one, 3/10 not stated), whatever the declaration says.
+    """
+    name = _g_variant(draw, d['name'], 1)
+    if draw(S._I10) >= 3:
+        return (name, d['type'], v)
+    r = draw(S._I100)
+    ts = False if r % 10 < 5 else True if r % 10 < 7 else None
+    ov = False if r // 10 < 5 else True if r // 10 < 7 else None
+    if ts is None and ov is None:
+        return (name, d['type'], v)
+    return (name, d['type'], v, ts, ov)
+
+
 def _g_quals(draw, qdecls, scope, inherited, seen, maxn=2):
     """
     Qualifiers of one element.  inherited: expected qualifiers of the
@@ -558,15 +707,14 @@ def _g_quals(draw, qdecls, scope, inherited, seen, maxn=2):
                 v = old['value']
             else:
                 v = _g_qvalue(draw, d)
-            out[lq] = (_g_variant(draw, d['name'], 1), d['type'], v)
+            out[lq] = _g_qual(draw, d, v)
     if usable:
         names = sorted(usable)
         for _ in range(draw(S._I10) % (maxn + 1)):
             lq = names[draw(S._I100) % len(names)]
             if lq not in out:
                 d = usable[lq]
-                out[lq] = (_g_variant(draw, d['name'], 1), d['type'],
-                           _g_qvalue(draw, d))
+                out[lq] = _g_qual(draw, d, _g_qvalue(draw, d))
     return list(out.values())
 
 
@@ -807,6 +955,67 @@ def _all_quals(spec):
                 yield q
 
 
+def _vflavor_classes(model, k, v, cl):
+    """
+    Evidence classes for qualifier values that state flavors of their own:
+    what is stated (against the declaration), and whether the forest holds
+    a situation in which the stated flavor decides what a subclass shows.
+    Returns True if a stated flavor differs from the declaration's.
+    """
+    differs = False
+    for q in _all_quals(model.classes[k]):
+        name, _, _, ts, ov = qparts(q)
+        if ts is None and ov is None:
+            continue
+        dts, dov = model.tosub(name), model.ovr(name)
+        same = True
+        for x, dx, lab in ((ts, dts, ('Restricted', 'ToSubclass')),
+                           (ov, dov, ('DisableOverride', 'EnableOverride'))):
+            if x is not None and x != dx:
+                same = False
+                cl.append('vflavor:%s-on-%s-declaration' % (lab[x], lab[dx]))
+        if same:
+            cl.append('vflavor:repeats-declaration')
+        differs = differs or not same
+    sup = model.superof(k)
+    if sup is None:
+        return differs
+    sv = model.view(sup)
+    elems = [(e, sv[kind].get(le)) for kind in ('props', 'methods')
+             for le, e in v[kind].items()]
+    for e, base in list(elems):
+        if 'params' in e and base is not None:
+            elems += [(x, base['params'].get(lp))
+                      for lp, x in e['params'].items()]
+    for e, base in elems:
+        if base is None:
+            continue
+        for lq, q in base['quals'].items():
+            mine = e['quals'].get(lq)
+            if q.get('free'):
+                cl.append('unasserted:flavors-after-restated-'
+                          'disableoverride-with-other-flavors')
+                continue
+            if q['xts'] is False and model.tosub(lq) and \
+                    (mine is None or mine['src'] == 'own'):
+                # (absent below, or stated again by the subclass itself)
+                cl.append('vflavor:Restricted-value-stops-above-%s-element'
+                          % ('redeclared' if mine else 'inherited'))
+            if q['xts'] is True and not model.tosub(lq) and \
+                    mine is not None and mine['src'] == 'inherited':
+                cl.append('vflavor:ToSubclass-value-of-Restricted-'
+                          'declaration-inherited')
+            if q['ts'] and mine is not None and mine['src'] == 'own':
+                if q['xov'] is False and model.ovr(lq):
+                    cl.append('vflavor:DisableOverride-value-%s-below' % (
+                        'changed' if (mine['value'], mine['type']) !=
+                        (q['value'], q['type']) else 'repeated'))
+                if q['xov'] is True and not model.ovr(lq):
+                    cl.append('vflavor:EnableOverride-value-of-'
+                              'DisableOverride-declaration-overridden-below')
+    return differs
+
+
 def classify(model, extra_case=False):
     cl = []
     depth = max([model.depth(k) for k in model.classes] or [0])
@@ -814,10 +1023,11 @@ def classify(model, extra_case=False):
     cl.append('depth:%d' % depth)
     cl.append('fanout:%d' % min(fan, 4))
     n_over = n_mover = n_inh = 0
-    restricted = disable = both = False
+    restricted = disable = both = vdiff = False
     case = extra_case
     for k, spec in model.classes.items():
         v = model.view(k)
+        vdiff = _vflavor_classes(model, k, v, cl) or vdiff
         for e in v['props'].values():
             if e['kind'] == 'override':
                 n_over += 1
@@ -861,7 +1071,7 @@ def classify(model, extra_case=False):
     if case:
         cl.append('case-variant-names')
     nontrivial = (depth >= 2 and (n_over + n_mover > 0)) or restricted or \
-        disable or case
+        disable or case or vdiff
     return sorted(set(cl)), nontrivial
 
 
@@ -872,6 +1082,10 @@ CLASS_SIG = 'full:class-level-qualifier-inheritance-not-resolved'
 PARAM_SIG = 'full:method-parameter-qualifiers-not-resolved'
 GHOST_SIG = 'full:restricted-qualifier-shown-on-inherited-element'
 RESTATED_SIG = 'full:restated-qualifier-flavors-not-initialised'
+# a flavor stated on the qualifier value (CIMQualifier(..., tosubclass=,
+# overridable=) / MOF 'Q(v) : Restricted') is not the one that is exposed
+# and applied: + ':tosubclass' | ':overridable'
+VFLAVOR_SIG = 'full:flavor-stated-on-qualifier-value-not-honoured:'
 
 
 def _qdict(nocase):
@@ -892,19 +1106,48 @@ def diag(parent_act, lq, attr='tosubclass'):
     return 'noflavor' if v is None else 'on' if v else 'off'
 
 
-def cmp_quals(ctx, where, level, kind, exp, act, ghost, parent_act):
+def cmp_quals(ctx, where, level, kind, exp, act, ghost, parent_act,
+              xres=(), parent_exp=None):
     """
-    exp: {lname: {'name','type','value','src'}}; act: NocaseDict of
+    exp: {lname: {'name','type','value','src', flavors}}; act: NocaseDict of
     CIMQualifier.  level: class|property|method|parameter; kind: new|
     override|inherited|class.  parent_act: qualifiers of the same element in
     the superclass as returned by the server (None if there is none); used
-    only to attribute a difference to its root cause.
+    only to attribute a difference to its root cause.  xres: qualifiers of
+    the overridden element whose value states Restricted (attribution only);
+    parent_exp: expected qualifiers of the same element in the superclass
+    (to recognise what was reported there already).
     """
     a = _qdict(act)
+    free = [lq for lq, q in exp.items() if q.get('free')]
+    if free:
+        ctx.event('unasserted:qualifier-with-undetermined-flavors', len(free))
+        exp = {lq: q for lq, q in exp.items() if lq not in free}
+        a = {lq: q for lq, q in a.items() if lq not in free}
+    # the flavors a value states itself are exposed as stated
+    for lq in sorted(set(a) & set(exp)):
+        q = exp[lq]
+        if q['src'] != 'own':
+            continue
+        for attr, want in (('tosubclass', q['xts']),
+                           ('overridable', q['xov'])):
+            if want is not None and getattr(a[lq], attr) is not want:
+                ctx.fail(VFLAVOR_SIG + attr,
+                         '%s: qualifier %s is declared here with %s=%r, '
+                         'exposed with %s=%r' %
+                         (where, q['name'], attr, want, attr,
+                          getattr(a[lq], attr)))
     for lq in sorted(set(exp) - set(a)):
         q = exp[lq]
         if q['src'] == 'inherited':
             d = diag(parent_act, lq)
+            if d == 'off' and q['xts'] is True and level != 'class':
+                ctx.fail(VFLAVOR_SIG + 'tosubclass',
+                         '%s: qualifier %s = %r whose value states '
+                         'ToSubclass in the superclass is absent; there it '
+                         'is exposed as Restricted' %
+                         (where, q['name'], q['value']))
+                continue
             if d == 'absent':
                 # already lost in the superclass (reported there)
                 ctx.event('cascade:qualifier-missing-upstream')
@@ -938,13 +1181,24 @@ def cmp_quals(ctx, where, level, kind, exp, act, ghost, parent_act):
             d = diag(parent_act, lq)
             if d == 'off':
                 sig = GHOST_SIG
-            elif d == 'noflavor' and level == 'parameter' and ghost[lq]:
+            elif d == 'noflavor' and level == 'parameter' and \
+                    ghost[lq]['restated']:
                 ctx.event('ambiguous:parameter+restated')
                 continue
             elif d == 'noflavor':
                 sig = PARAM_SIG if level == 'parameter' else \
-                    RESTATED_SIG if ghost[lq] else \
+                    RESTATED_SIG if ghost[lq]['restated'] else \
                     'full:qualifier-flavors-not-initialised:%s' % level
+            elif d == 'on' and ghost[lq]['xts'] is False:
+                sig = VFLAVOR_SIG + 'tosubclass'
+        elif lq in xres and diag(parent_act, lq) == 'on':
+            sig = VFLAVOR_SIG + 'tosubclass'
+        elif parent_exp is not None and lq not in parent_exp and \
+                diag(parent_act, lq) == 'on':
+            # unexpected (and reported) on the superclass' element already,
+            # from where it propagates as a ToSubclass qualifier does
+            ctx.event('cascade:unexpected-qualifier-upstream')
+            continue
         ctx.fail(sig, '%s (%s): qualifier %s = %r is exposed but neither '
                  'declared here nor inherited with ToSubclass' %
                  (where, kind, a[lq].name, a[lq].value))
@@ -986,10 +1240,12 @@ def cmp_full(ctx, model, ln, klass, sup_klass=None):
                              ('methods', klass.methods, 'method')):
         a = {lc(k): e for k, e in act.items()}
         pa_ = {}
+        pe_ = {}
         if sup_klass is not None:
             pa_ = {lc(k): e for k, e in (
                 sup_klass.properties if kind == 'props'
                 else sup_klass.methods).items()}
+            pe_ = model.view(model.superof(ln))[kind]
         missing, extra = _names_diff(v[kind], a)
         for le in missing:
             ctx.fail('full:%s-missing:%s' % (label, v[kind][le]['kind']),
@@ -1023,7 +1279,9 @@ def cmp_full(ctx, model, ln, klass, sup_klass=None):
             px = pa_.get(le)
             cmp_quals(ctx, where, label, e['kind'], e['quals'],
                       x.qualifiers, e['ghost'],
-                      px.qualifiers if px is not None else None)
+                      px.qualifiers if px is not None else None,
+                      xres=e['xres'],
+                      parent_exp=pe_[le]['quals'] if le in pe_ else None)
             if kind == 'props':
                 if (x.type, bool(x.is_array)) != (e['type'], e['is_array']):
                     ctx.fail('full:property-type-wrong:%s' % e['kind'],
@@ -1062,7 +1320,11 @@ def cmp_full(ctx, model, ln, klass, sup_klass=None):
                               'parameter',
                               'override' if p['over'] else e['kind'],
                               p['quals'], y.qualifiers, p['ghost'],
-                              py.qualifiers if py is not None else None)
+                              py.qualifiers if py is not None else None,
+                              xres=p['xres'],
+                              parent_exp=pe_[le]['params'][lp]['quals']
+                              if le in pe_ and lp in pe_[le]['params']
+                              else None)
 
 
 def get_full(conn, name):
@@ -1106,7 +1368,7 @@ def report_violations(ctx, conn, spec, violations, how):
     for the superclass.
     """
     sup = get_full(conn, spec['super'])
-    for level, elem, (qname, restated) in violations:
+    for level, elem, (qname, restated, explicit) in violations:
         d = diag(_parent_quals(sup, level, elem), lc(qname), 'overridable')
         if d in ('absent', 'noparent'):
             ctx.event('cascade:qualifier-missing-upstream')
@@ -1120,6 +1382,10 @@ def report_violations(ctx, conn, spec, violations, how):
                 'full:qualifier-flavors-not-initialised:%s' % level
         elif level == 'class':
             sig = CLASS_SIG
+        elif d == 'on' and explicit:
+            # the superclass exposes the qualifier as EnableOverride
+            # although its value states DisableOverride
+            sig = VFLAVOR_SIG + 'overridable'
         elif level == 'parameter':
             sig = PARAM_SIG
         else:
@@ -1198,6 +1464,9 @@ def create_class(ctx, conn, model, spec, how='create'):
     except CIMError as exc:
         if pv['violations']:
             ctx.event('rejected:disableoverride-violation')
+            if any(x[2][2] for x in pv['violations']):
+                ctx.event('rejected:disableoverride-stated-on-value-'
+                          'violation')
             return False
         if pv['loose'] or pv['class_loose']:
             ctx.event('rejected:restricted+disableoverride-restated')
@@ -1669,6 +1938,84 @@ def forest_mof(forest):
     return '\n'.join(parts)
 
 
+def _qual_holders(klass):
+    "-> [(label, NocaseDict of qualifiers)] of a class, in a fixed order"
+    out = [('class', klass.qualifiers)]
+    for label, elems in (('property', klass.properties),
+                         ('method', klass.methods)):
+        for ln in sorted(elems.keys(), key=lc):
+            e = elems[ln]
+            out.append(('%s %s' % (label, e.name), e.qualifiers))
+            if label == 'method':
+                for lp in sorted(e.parameters.keys(), key=lc):
+                    x = e.parameters[lp]
+                    out.append(('parameter %s(%s)' % (e.name, x.name),
+                                x.qualifiers))
+    return out
+
+
+def cmp_with_createclass(ctx, forest, conn, model):
+    """
+    Differential oracle: the forest that was compiled from MOF text (flavor
+    lists on the qualifier values) is created again through CreateClass
+    (CIMQualifier objects with tosubclass= / overridable=) in a second
+    connection; every class must resolve to the same full view.  Needs no
+    model: it also covers what the model leaves unasserted.
+    """
+    conn2 = new_conn(forest['qdecls'])
+    try:
+        for spec in forest['classes']:
+            conn2.CreateClass(b_class(spec))
+    except CIMError:
+        ctx.event('differential:skipped:CreateClass-rejects-what-MOF-accepts')
+        return
+    ctx.event('differential:forests-compared')
+    differs = set()
+    for ln, spec in model.classes.items():
+        m = get_full(conn, spec['name'])
+        c = get_full(conn2, spec['name'])
+        if m == c:
+            continue
+        differs.add(ln)
+        if model.superof(ln) in differs:
+            ctx.event('cascade:differential-superclass-differs')
+            continue
+        what = set()
+        hm, hc = _qual_holders(m), _qual_holders(c)
+        detail = {}
+        if [h[0].lower() for h in hm] != [h[0].lower() for h in hc]:
+            what.add('elements')
+        else:
+            for (label, qm), (_, qc) in zip(hm, hc):
+                qm, qc = _qdict(qm), _qdict(qc)
+                if set(qm) != set(qc):
+                    what.add('qualifier-set')
+                    detail.setdefault('qualifier-set', '%s: %s vs %s' % (
+                        label, sorted(qm), sorted(qc)))
+                for lq in sorted(set(qm) & set(qc)):
+                    for attr in ('value', 'type', 'tosubclass',
+                                 'overridable', 'translatable',
+                                 'toinstance', 'propagated'):
+                        if getattr(qm[lq], attr) != getattr(qc[lq], attr):
+                            what.add('qualifier-' + attr)
+                            detail.setdefault(
+                                'qualifier-' + attr,
+                                '%s: qualifier %s: %s %r vs %r' % (
+                                    label, qm[lq].name, attr,
+                                    getattr(qm[lq], attr),
+                                    getattr(qc[lq], attr)))
+        # one signature per class: the difference nearest to a cause
+        w = ([x for x in ('elements', 'qualifier-tosubclass',
+                          'qualifier-overridable', 'qualifier-translatable',
+                          'qualifier-toinstance', 'qualifier-set',
+                          'qualifier-type', 'qualifier-value',
+                          'qualifier-propagated') if x in what] +
+             ['other'])[0]
+        ctx.fail('mof:class-resolved-differently-than-through-CreateClass:'
+                 '%s' % w, '%s (MOF vs CreateClass): %s\n%r\n%r' %
+                 (spec['name'], detail.get(w, ''), m, c))
+
+
 def mof_oracle(ctx, forest):
     model = Model(forest['qdecls'])
     bad = None
@@ -1707,6 +2054,7 @@ def mof_oracle(ctx, forest):
     check_views(ctx, conn, model, forest['mask'])
     check_class_enums(ctx, conn, model, forest['mask'], targets=[None])
     check_instance_enums(ctx, conn, model, forest['mask'], both=False)
+    cmp_with_createclass(ctx, forest, conn, model)
     cl, nontriv = classify(model, forest['mask'] != 0)
     ctx.case(nontrivial=nontriv, classes=cl + ['via:mof'])
 
@@ -1962,6 +2310,20 @@ SENSITIVITY = [
     "ModifyClass does not resolve a class that has a superclass -> "
     "history/full:property-missing:inherited, history/full:class-origin-"
     "wrong:property:new",
+    "_mof_compiler._build_flavors: a flavor stated as False on a qualifier "
+    "value (Restricted / DisableOverride) is replaced by the declaration's "
+    "(seeded change 4) -> resolve/full:flavor-stated-on-qualifier-value-"
+    "not-honoured:tosubclass, ...:overridable, resolve/mof:class-resolved-"
+    "differently-than-through-CreateClass:qualifier-tosubclass, "
+    "...:qualifier-overridable",
+    "_resolve_qualifiers: propagation to an overriding element decided by "
+    "the declaration's flavor instead of the inherited value's (if "
+    "qualifier_store.get(inh_qname).tosubclass is not False) -> resolve/"
+    "full:unexpected-qualifier:property:override, ...:method:override, "
+    "...:parameter:override, resolve/full:property-qualifier-not-"
+    "propagated:override:on, ...method-qualifier-...; found only through "
+    "values that state a flavor other than the declaration's (stated "
+    "flavors are still exposed unchanged, MOF and CreateClass still agree)",
 ]
 
 _BUDGET = (300, 3000)     # soft wall-clock stop per shard (loaded machine)
